@@ -19,7 +19,9 @@ package token
 //@ interface tokenFactoryStrategy.Create(expr string) (t Token, err error) pure
 //@ interface factory.Create(expr string) (t Token, err error) pure
 //@ interface chunker.Chunks(s string) (chunks []string, err error) pure
-//@ interface aliaser.Alias(import_ string) string pure
+// Alias registers the import as used and answers its local name: it reads the alias table as it is at the time of
+// the call (C14), so it is an effect, not a function of its argument.
+//@ interface aliaser.Alias(import_ string) string effect
 
 // toExpr strips the surrounding "%" delimiters. "%" is a single byte and a single rune, so on valid UTF-8 the rune
 // view used by the code and the byte view used here agree (A7).
@@ -98,11 +100,20 @@ package token
 //@   ensures [empty_is_an_error] (result.1 != nil) <==> len(tkns) == 0
 //@   ensures [single_token_keeps_type] len(tkns) == 1 ==> result.0 == "dependencyProvider(" + tkns[0].Code + ")"
 
+// C14: a function registered with an import resolves that import through the alias table when a token is created,
+// i.e. after all of meta.imports has been registered (StepCompileMeta.Process), never at registration time.
+//@ func NewFactoryFunction
+//@   property C14 C03
+//@   ensures [fields_as_given] result.aliaser == a && result.fn == fn && result.goImport == goImport && result.goFn == goFn
+//@   ensures [no_alias_at_registration] tlen() == old(tlen())
+
 //@ func (*FactoryFunction).Create
-//@   property C03 C12
+//@   property C03 C12 C14
 //@   requires [wired] f.aliaser != nil
 //@   ensures [function_token] result.1 == nil && result.0.Kind == KindFunc && result.0.Raw == expr && len(result.0.DependsOn) == 0
+//@   ensures [import_resolved_at_creation] f.goImport != "" ==> (exists k int :: old(tlen()) <= k && k < tlen() && evIs(k, "internal/pkg/token:aliaser.Alias") && evS1(k) == f.goImport)
 
 //@ func (*FuncRegisterer).RegisterFunc
-//@   property C03 C12
+//@   property C03 C12 C14
 //@   requires [wired] f.prepender != nil
+//@   ensures [no_alias_at_registration] forall k int :: old(tlen()) <= k && k < tlen() ==> !evIs(k, "internal/pkg/token:aliaser.Alias")
